@@ -71,6 +71,135 @@ theorem splitCRLF_suffix {s l r : Bytes} (h : splitCRLF s = some (l, r)) : r <:+
   have := splitCRLF_some h
   exact ⟨l ++ [13, 10], by simp [this]⟩
 
+/-! ### stage 1 only looks at the start line -/
+
+/-- line-based characterisation of stage 1: `line` = the bytes in front of the first CRLF.
+Every case in which a `find` of the code runs past the CRLF ends in `kFail`:
+  * no space in the line: `method_str` contains the CR, which no method name does;
+  * only spaces after the method: `url_str_begin >= end_pos`;
+  * no space after the url inside the line: `ver_str_begin` is npos or `>= end_pos`
+    (whatever `StringToUrlPath` said about the over-long string);
+  * only spaces after the url: `ver_str_begin >= end_pos`. -/
+def parseStartLine (line : Bytes) : Option (String × UrlPath × String) :=
+  let m := line.takeWhile (· != 32)
+  let r1 := line.dropWhile (· != 32)
+  if r1.isEmpty then none else
+  match methodOf m with
+  | none => none
+  | some method =>
+    let r2 := dropSpaces r1
+    if r2.isEmpty then none else
+    let u := r2.takeWhile (· != 32)
+    let r3 := r2.dropWhile (· != 32)
+    if r3.isEmpty then none else
+    match parseUrlPath u with
+    | none => none
+    | some url =>
+      let v := dropSpaces r3
+      if v.isEmpty then none else
+      if v.take 5 != ascii "HTTP/" then none else
+      match verOf v with
+      | none => none
+      | some ver => some (method, url, ver)
+
+theorem tw_append (p : UInt8 → Bool) (l t : Bytes) :
+    (l ++ t).takeWhile p = if (l.dropWhile p).isEmpty then l ++ t.takeWhile p else l.takeWhile p := by
+  induction l with
+  | nil => simp
+  | cons x l ih =>
+    by_cases hx : p x = true
+    · simp only [List.cons_append, List.takeWhile_cons, List.dropWhile_cons, hx, if_true, ih]
+      split <;> rfl
+    · simp [hx]
+
+theorem dw_append (p : UInt8 → Bool) (l t : Bytes) :
+    (l ++ t).dropWhile p = if (l.dropWhile p).isEmpty then t.dropWhile p else l.dropWhile p ++ t := by
+  induction l with
+  | nil => simp
+  | cons x l ih =>
+    by_cases hx : p x = true
+    · simp only [List.cons_append, List.dropWhile_cons, hx, if_true, ih]
+    · simp [hx]
+
+/-- no method name of the (regenerated) table contains a CR -/
+theorem methodTable_no13 : ∀ p ∈ Gen.methodTable, (13 : UInt8) ∉ ascii p.2 := by decide
+
+theorem methodOf_no13 {m : Bytes} {e : String} (h : methodOf m = some e) : (13 : UInt8) ∉ m := by
+  unfold methodOf at h
+  cases hf : Gen.methodTable.find? (fun p => ascii p.2 == m) with
+  | none => simp [hf] at h
+  | some p =>
+    have h1 := List.find?_some hf
+    have h2 := List.mem_of_find?_eq_some hf
+    have : ascii p.2 = m := by simpa using h1
+    rw [← this]
+    exact methodTable_no13 p h2
+
+theorem dropWhile_length_le (p : UInt8 → Bool) (l : Bytes) : (l.dropWhile p).length ≤ l.length :=
+  (List.dropWhile_suffix p).length_le
+
+/-- `startLineLit` (the literal transcription over the whole buffer) equals the line-based
+function: stage 1 depends only on the bytes in front of the first CRLF. -/
+theorem startLineLit_eq (line after : Bytes) :
+    startLineLit (line ++ 13 :: 10 :: after) (after.length + 2) = parseStartLine line := by
+  have ht : (13 :: 10 :: after).length = after.length + 2 := by simp
+  generalize htd : (13 :: 10 :: after : Bytes) = t at ht
+  have ht32 : t.dropWhile (· == 32) = t := by subst htd; simp
+  have htne : t.takeWhile (· != 32) = 13 :: (10 :: after).takeWhile (· != 32) := by subst htd; simp
+  simp only [startLineLit, parseStartLine, dropSpaces]
+  rw [tw_append, dw_append]
+  by_cases h1 : (line.dropWhile (· != 32)).isEmpty = true
+  · -- no space in the line: the method string runs into the CR
+    simp only [h1, if_true]
+    have : methodOf (line ++ t.takeWhile (· != 32)) = none := by
+      cases hm : methodOf (line ++ t.takeWhile (· != 32)) with
+      | none => rfl
+      | some e => exact absurd (by rw [htne]; simp) (methodOf_no13 hm)
+    simp only [this]
+  · simp only [h1, Bool.false_eq_true, if_false]
+    cases hm : methodOf (List.takeWhile (fun x => x != 32) line) with
+    | none => rfl
+    | some method =>
+      simp only []
+      rw [dw_append]
+      by_cases h2 : ((line.dropWhile (· != 32)).dropWhile (· == 32)).isEmpty = true
+      · simp [h2, ht32, ht]
+      · have h2' : ((line.dropWhile (· != 32)).dropWhile (· == 32)) ≠ [] := by simpa using h2
+        have e2 : ∀ v : Bytes, v ≠ [] → ((v ++ t).isEmpty || decide ((v ++ t).length ≤ after.length + 2)) = false := by
+          intro v hv
+          have := List.length_pos_iff.mpr hv
+          simp [hv]; omega
+        simp only [h2, Bool.false_eq_true, if_false, e2 _ h2']
+        rw [tw_append, dw_append]
+        by_cases h3 : (((line.dropWhile (· != 32)).dropWhile (· == 32)).dropWhile (· != 32)).isEmpty = true
+        · -- no space after the url inside the line: ver_str_begin lies beyond end_pos
+          simp only [h3, if_true]
+          have hle := dropWhile_length_le (· == 32) (t.dropWhile (· != 32))
+          have hle2 := dropWhile_length_le (· != 32) t
+          cases parseUrlPath _ with
+          | none => rfl
+          | some url =>
+            have : (((t.dropWhile (· != 32)).dropWhile (· == 32)).isEmpty ||
+                decide (((t.dropWhile (· != 32)).dropWhile (· == 32)).length ≤ after.length + 2)) = true := by
+              simp; right; omega
+            simp only [this, if_true]
+        · simp only [h3, Bool.false_eq_true, if_false]
+          cases parseUrlPath _ with
+          | none => rfl
+          | some url =>
+            simp only []
+            rw [dw_append]
+            by_cases h4 : ((((line.dropWhile (· != 32)).dropWhile (· == 32)).dropWhile (· != 32)).dropWhile (· == 32)).isEmpty = true
+            · simp [h4, ht32, ht]
+            · have h4' : ((((line.dropWhile (· != 32)).dropWhile (· == 32)).dropWhile (· != 32)).dropWhile (· == 32)) ≠ [] := by
+                simpa using h4
+              have e3 : ∀ v : Bytes, (v ++ t).take ((v ++ t).length - (after.length + 2)) = v := by
+                intro v
+                rw [List.length_append, ht, Nat.add_sub_cancel]
+                exact List.take_left' rfl
+              simp only [h4, Bool.false_eq_true, if_false, e2 _ h4', e3]
+              rfl
+
 /-! ### the header loop -/
 
 /-- the remaining bytes reported by the loop are a suffix of what it was given -/
@@ -306,6 +435,11 @@ theorem headersStage_ext (cfg : Cfg) (req : Req) (clen : Option Nat) (s e : Byte
   | threw => simp [Ext]
   | hang => simp [Ext]
 
+theorem startLineLit_of_split {s line after : Bytes} (h : splitCRLF s = some (line, after)) :
+    startLineLit s (after.length + 2) = parseStartLine line := by
+  rw [splitCRLF_some h]
+  exact startLineLit_eq line after
+
 theorem parse_init_eq (cfg : Cfg) (ps : PState) (h : ps.st = .init) (x : Bytes) :
     parse cfg ps x = parse cfg PState.init x := by
   simp [parse, h, PState.init]
@@ -321,7 +455,7 @@ theorem parse_ext (ps : PState) (s e : Bytes) :
     | some p =>
       obtain ⟨line, after⟩ := p
       simp only [parse, PState.init, Cfg.fixed, Bool.not_true, Bool.false_and, Bool.false_eq_true, if_false, heq,
-        splitCRLF_append e heq]
+        splitCRLF_append e heq, startLineLit_of_split heq, startLineLit_of_split (splitCRLF_append e heq)]
       cases parseStartLine line with
       | none => simp [Ext]
       | some t =>
